@@ -25,12 +25,13 @@ _SORT = {INT: z3.IntSort, BOOL: z3.BoolSort, REAL: z3.RealSort, STR: z3.StringSo
 
 class Sym:
     """Immutable symbolic scalar: z3 term + python type tag."""
-    __slots__ = ('z', 't', 'ratio')
+    __slots__ = ('z', 't', 'ratio', 'src')
 
-    def __init__(self, z, t, ratio=None):
+    def __init__(self, z, t, ratio=None, src=None):
         self.z = z
         self.t = t
         self.ratio = ratio      # (int numerator, int denominator) when this real is a quotient of two ints
+        self.src = src          # for str(int): the integer term it was formatted from (int(str(i)) == i exactly)
 
     def __repr__(self):
         return 'Sym<%s:%s>' % (self.t, self.z)
@@ -339,7 +340,7 @@ def concretize(v):
             return z.as_string()
         if v.t == REAL and z3.is_rational_value(z):
             return Fraction(z.numerator_as_long(), z.denominator_as_long())
-        return Sym(z, v.t, v.ratio)
+        return Sym(z, v.t, v.ratio, v.src)
     return v
 
 
@@ -557,7 +558,7 @@ class Engine:
                 rt = INT
             if isinstance(op, (ast.FloorDiv, ast.Mod)) and rt == INT:
                 za, zb = zterm(a, INT), zterm(b, INT)
-                if not self.pure and self.branch(zb == 0):
+                if self.zero_check(zb):
                     raise PyRaise('ZeroDivisionError', node=node)
                 return Sym(zfloordiv(za, zb) if isinstance(op, ast.FloorDiv) else zmod(za, zb), INT)
             za, zb = zterm(a, rt), zterm(b, rt)
@@ -568,14 +569,14 @@ class Engine:
             if isinstance(op, ast.Mult):
                 return Sym(za * zb, rt)
             if isinstance(op, ast.Div):
-                if not self.pure and self.branch(zb == 0):
+                if self.zero_check(zb):
                     raise PyRaise('ZeroDivisionError', node=node)
                 ratio = None
                 if ta in (INT, BOOL) and tb in (INT, BOOL):
                     ratio = (zterm(a, INT), zterm(b, INT))
                 return Sym(za / zb, REAL, ratio)
             if isinstance(op, ast.FloorDiv):
-                if not self.pure and self.branch(zb == 0):
+                if self.zero_check(zb):
                     raise PyRaise('ZeroDivisionError', node=node)
                 return Sym(z3.ToReal(z3.ToInt(za / zb)), REAL)
             if isinstance(op, ast.Pow) and isinstance(b, int) and 0 <= b <= 4:
@@ -584,6 +585,15 @@ class Engine:
                     r = r * za
                 return Sym(r, rt)
         raise Unsupported('binop %s on %s,%s' % (type(op).__name__, ta, tb))
+
+    def zero_check(self, zb):
+        """True when the divisor is zero on this path (caller raises ZeroDivisionError)."""
+        if self.strict:
+            self.guarded_must_hold(zb != 0)
+            return False
+        if self.pure:
+            return False
+        return self.branch(zb == 0)
 
     def native_binop(self, op, a, b, node=None):
         fn = {ast.Add: operator.add, ast.Sub: operator.sub, ast.Mult: operator.mul, ast.Div: None,
@@ -920,7 +930,7 @@ class Engine:
                 return x
             if x.t == INT:
                 # str(int): z3 int.to.str is only defined for non-negative ints
-                return Sym(z3.If(x.z >= 0, z3.IntToStr(x.z), z3.Concat(z3.StringVal('-'), z3.IntToStr(-x.z))), STR)
+                return Sym(z3.If(x.z >= 0, z3.IntToStr(x.z), z3.Concat(z3.StringVal('-'), z3.IntToStr(-x.z))), STR, src=x.z)
             raise Unsupported('str() of symbolic %s' % x.t)
         if isinstance(x, Fraction):
             return str(float(x))
@@ -1256,7 +1266,9 @@ class Engine:
                     raise PyRaise('TypeError', 'index type', node=node)
                 n = len(base)
                 iz = zterm(idx, INT)
-                if self.pure:
+                if self.strict:
+                    self.guarded_must_hold(z3.And(iz >= -n, iz < n))
+                elif self.pure:
                     if n == 0:
                         raise Unsupported('spec indexes an empty list with a symbolic index')
                 elif not self.branch(z3.And(iz >= -n, iz < n)):
@@ -1291,6 +1303,9 @@ class Engine:
             return self.dict_missing(base, k, node)
         if isinstance(base, SymSeq):
             iz = zterm(idx, INT)
+            if self.strict:
+                self.guarded_must_hold(z3.And(iz >= -base.n, iz < base.n))
+                return base.get(z3.If(iz < 0, iz + base.n, iz))
             if not self.pure:
                 if not self.branch(z3.And(iz >= -base.n, iz < base.n)):
                     raise PyRaise('IndexError', node=node)
@@ -1330,7 +1345,9 @@ class Engine:
         sz = zterm(s, STR)
         iz = zterm(idx, INT)
         n = z3.Length(sz)
-        if not self.pure:
+        if self.strict:
+            self.guarded_must_hold(z3.And(iz >= -n, iz < n))
+        elif not self.pure:
             if not self.branch(z3.And(iz >= -n, iz < n)):
                 raise PyRaise('IndexError', 'string index out of range', node=node)
         return Sym(z3.SubString(sz, z3.If(iz < 0, iz + n, iz), 1), STR)
@@ -1410,6 +1427,11 @@ class Engine:
             n = z3.simplify(it.n)
             if z3.is_int_value(n):
                 return [it.get(i) for i in range(n.as_long())]
+            if not self.pure:
+                # the path condition may fix the length (e.g. a callee contract "exactly one element")
+                for c in range(0, 4):
+                    if not self.feasible(it.n != c):
+                        return [it.get(i) for i in range(c)]
             raise Unsupported('iteration over a symbolic-length sequence needs a loop invariant')
         if isinstance(it, SymRange):
             c = it.concrete()
@@ -1843,8 +1865,88 @@ class Engine:
     def s_Continue(self, node, fr):
         raise _Continue()
 
+    MERGE_CALLS = {'has_tag', 'get_tag', 'startswith', 'endswith', 'int', 'len', 'str', 'float', 'abs', 'min', 'max',
+                   'isinstance', 'get'}
+
+    def mergeable_test(self, node):
+        """side-effect free boolean test that may be evaluated as ONE formula (no path split per operand)"""
+        for n in ast.walk(node):
+            if isinstance(n, (ast.BoolOp, ast.Compare, ast.UnaryOp, ast.Name, ast.Attribute, ast.Constant, ast.Load,
+                              ast.And, ast.Or, ast.Not, ast.cmpop, ast.Subscript, ast.BinOp, ast.operator, ast.unaryop,
+                              ast.Tuple, ast.List)):
+                continue
+            if isinstance(n, ast.Call):
+                f = n.func
+                name = f.attr if isinstance(f, ast.Attribute) else f.id if isinstance(f, ast.Name) else None
+                if name in self.MERGE_CALLS and not n.keywords:
+                    continue
+            return False
+        return isinstance(node, ast.BoolOp)
+
+    def eval_test(self, node, fr):
+        """truth of an if/while test.  A compound side-effect-free test is turned into one formula (python's
+        short-circuit guards are kept as assumptions while the guarded operand is evaluated, so a guarded operation that
+        could raise - get_tag of an absent tag, None attribute - makes the merge fall back to operand-wise branching)."""
+        if self.pure or not self.mergeable_test(node):
+            return self.test(self.eval(node, fr))
+        saved = (len(self.pc), self.pos, list(self.schedule), list(self.alts))
+        self.pure += 1
+        self.strict += 1
+        pushed = 0
+        try:
+            val = self._merged(node, fr)
+            ok = True
+        except (Unsupported, PyRaise):
+            ok = False
+        finally:
+            self.pure -= 1
+            self.strict -= 1
+            while self._guards:
+                self._guards.pop()
+        if not ok:
+            return self.test(self.eval(node, fr))
+        return self.branch(val)
+
+    strict = 0
+    _guards = []
+
+    def _merged(self, node, fr):
+        if isinstance(node, ast.BoolOp):
+            is_and = isinstance(node.op, ast.And)
+            parts = []
+            n_pushed = 0
+            for v in node.values:
+                t = self._merged(v, fr)
+                t = z3.BoolVal(t) if isinstance(t, bool) else t
+                parts.append(t)
+                self._guards.append(t if is_and else z3.Not(t))
+                n_pushed += 1
+            for _ in range(n_pushed):
+                self._guards.pop()
+            return z3.And(*parts) if is_and else z3.Or(*parts)
+        if isinstance(node, ast.UnaryOp) and isinstance(node.op, ast.Not):
+            t = self._merged(node.operand, fr)
+            return (not t) if isinstance(t, bool) else z3.Not(t)
+        return self.truth(self.eval(node, fr))
+
+    def guarded_must_hold(self, cond):
+        """in a merged test: the condition under which a guarded operation is defined must follow from the path
+        condition and the short-circuit guards; otherwise the merge is abandoned"""
+        if isinstance(cond, bool):
+            if not cond:
+                raise Unsupported('guarded operation undefined')
+            return
+        self.solver.push()
+        for g in self._guards:
+            self.solver.add(g)
+        self.solver.add(z3.Not(cond))
+        r = self.solver.check()
+        self.solver.pop()
+        if r != z3.unsat:
+            raise Unsupported('guarded operation may be undefined')
+
     def s_If(self, node, fr):
-        if self.test(self.eval(node.test, fr)):
+        if self.eval_test(node.test, fr):
             self.exec_block(node.body, fr)
         else:
             self.exec_block(node.orelse, fr)
@@ -2491,6 +2593,11 @@ def _sf_bagcount(eng, node, fr):
     return concretize(Sym(count_key(eng, v, eng.spec_env['X']), INT))
 
 
+def _sf_nsplit(eng, node, fr):
+    from .strings import NSPLIT, zs
+    return Sym(NSPLIT(zs(eng.eval(node.args[0], fr)), zs(eng.eval(node.args[1], fr))), INT)
+
+
 def _sf_seqlen(eng, node, fr):
     v = eng.eval(node.args[0], fr)
     if isinstance(v, GenResult):
@@ -2514,4 +2621,4 @@ def _sf_cdiv(eng, node, fr):
 
 
 SPEC_FORMS = {'forall': _sf_forall, 'exists': _sf_exists, 'implies': _sf_implies, 'iff': _sf_iff,
-              'ite': _sf_ite, 'old': _sf_old, 'entry': _sf_entry, 'head': _sf_head, 'dget': _sf_dget, 'bagcount': _sf_bagcount, 'seqlen': _sf_seqlen, 'fdiv': _sf_fdiv, 'cdiv': _sf_cdiv}
+              'ite': _sf_ite, 'old': _sf_old, 'entry': _sf_entry, 'head': _sf_head, 'dget': _sf_dget, 'bagcount': _sf_bagcount, 'nsplit': _sf_nsplit, 'seqlen': _sf_seqlen, 'fdiv': _sf_fdiv, 'cdiv': _sf_cdiv}
